@@ -5,6 +5,7 @@ package main
 
 import (
 	"fmt"
+	"sync"
 	"go/ast"
 	"go/parser"
 	"os"
@@ -206,6 +207,14 @@ type macro struct {
 }
 
 var macros = map[string]*macro{}
+var macrosMu sync.RWMutex
+
+func lookupMacro(name string) (*macro, bool) {
+	macrosMu.RLock()
+	defer macrosMu.RUnlock()
+	m, ok := macros[name]
+	return m, ok
+}
 
 func isIdentChar(b byte) bool {
 	return b == '_' || b >= 'a' && b <= 'z' || b >= 'A' && b <= 'Z' || b >= '0' && b <= '9'
@@ -213,7 +222,7 @@ func isIdentChar(b byte) bool {
 
 // expandMacros textually expands NAME(args) for declared macros.
 func expandMacros(s string, depth int) string {
-	if depth > 8 || len(macros) == 0 {
+	if depth > 8 {
 		return s
 	}
 	var out strings.Builder
@@ -226,7 +235,7 @@ func expandMacros(s string, depth int) string {
 				j++
 			}
 			name := s[i:j]
-			if m, ok := macros[name]; ok && j < len(s) && s[j] == '(' {
+			if m, ok := lookupMacro(name); ok && j < len(s) && s[j] == '(' {
 				sx, end := readSexp(s, j)
 				args := splitTop(sx[1:len(sx)-1], ',')
 				if len(args) == len(m.params) {
@@ -309,6 +318,21 @@ func parseContractFile(path, pkgPath string) ([]*Contract, error) {
 			word, rest = t[:i], strings.TrimSpace(t[i+1:])
 		}
 		fail := func(e error) error { return fmt.Errorf("%s:%d: %v", path, ln+1, e) }
+		if word == "typeinv" {
+			// typeinv T: EXPR(self)   — assumed for every object of type T read from the heap
+			i := strings.Index(rest, ":")
+			if i < 0 {
+				return nil, fail(fmt.Errorf("typeinv T: EXPR"))
+			}
+			e, err := parseSpecExpr(rest[i+1:])
+			if err != nil {
+				return nil, fail(err)
+			}
+			typeInvMu.Lock()
+			typeInvs[pkgPath+"."+strings.TrimSpace(rest[:i])] = &typeInv{Expr: e, Text: strings.TrimSpace(rest[i+1:]), Pkg: pkgPath}
+			typeInvMu.Unlock()
+			continue
+		}
 		if word == "macro" {
 			// macro NAME(p1, p2) = BODY
 			eq := strings.Index(rest, "=")
@@ -323,7 +347,9 @@ func parseContractFile(path, pkgPath string) ([]*Contract, error) {
 					m.params = append(m.params, strings.TrimSpace(p))
 				}
 			}
+			macrosMu.Lock()
 			macros[strings.TrimSpace(rest[:lp])] = m
+			macrosMu.Unlock()
 			continue
 		}
 		switch word {
@@ -468,7 +494,7 @@ func parseContractFile(path, pkgPath string) ([]*Contract, error) {
 			cl.Expr = e
 		case "forall", "let":
 			cl.Name = cl.Text
-		case "ghost", "effects", "arity", "charges", "bounded", "reads":
+		case "ghost", "effects", "arity", "charges", "bounded", "reads", "allocs":
 			// handled by their consumers
 		default:
 			return nil, fail(fmt.Errorf("unknown clause %q", cl.Kind))
@@ -482,7 +508,26 @@ func parseContractFile(path, pkgPath string) ([]*Contract, error) {
 }
 
 // loadContracts finds verif_contracts*.go below root.
+var contractsMu sync.Mutex
+
+type typeInv struct {
+	Expr ast.Expr
+	Text string
+	Pkg  string
+}
+
+var typeInvs = map[string]*typeInv{}
+var typeInvMu sync.RWMutex
+
+func lookupTypeInv(name string) *typeInv {
+	typeInvMu.RLock()
+	defer typeInvMu.RUnlock()
+	return typeInvs[name]
+}
+
 func loadContracts(root, modPath string) (map[string]*Contract, []*Contract, error) {
+	contractsMu.Lock()
+	defer contractsMu.Unlock()
 	byKey := map[string]*Contract{}
 	var all []*Contract
 	err := filepath.Walk(root, func(p string, info os.FileInfo, err error) error {
